@@ -207,6 +207,14 @@ func (c *FnCtx) ceIdent(st *State, x *ast.Ident, env *CEnv) Val {
 	if v, ok := env.bound[x.Name]; ok {
 		return v
 	}
+	if strings.HasPrefix(x.Name, "iterlen_") && st != nil {
+		// the length (evaluated once) of the slice range loop N iterates over
+		for o := range st.env {
+			if o.Name() == "$n"+strings.TrimPrefix(x.Name, "iterlen_") {
+				return st.env[o]
+			}
+		}
+	}
 	if strings.HasPrefix(x.Name, "iter_") && st != nil {
 		// the hidden index of range loop N
 		for o := range st.env {
